@@ -86,7 +86,13 @@ class EOFBootstrapper(_BaseBootstrapper, EOF):
             bst_data = bst_data.assign_coords({sample_name: input_data[sample_name]})
             # Perform EOF analysis with the subsampled data
             # No scaling because we use the pre-scaled data from the model
-            bst_model = EOF(n_modes=n_modes, standardize=False, use_coslat=False)
+            bst_model = EOF(
+                n_modes=n_modes,
+                standardize=False,
+                use_coslat=False,
+                sample_name=sample_name,
+                feature_name=model.feature_name,
+            )
             bst_model.fit(bst_data, dim=sample_name)
             # Save results
             expvar = bst_model.data["explained_variance"]
